@@ -1147,8 +1147,11 @@ static void uv__read(uv_stream_t* stream) {
 #endif
       stream->read_cb(stream, nread, &buf);
 
-      /* Return if we didn't fill the buffer, there is no more data to read. */
-      if (nread < buflen) {
+      /* Return if we didn't fill the buffer, there is no more data to read.
+       * That does not hold for IPC pipes: the kernel ends a read at the
+       * boundary of a message that carries descriptors.
+       */
+      if (nread < buflen && !is_ipc) {
         stream->flags |= UV_HANDLE_READ_PARTIAL;
         return;
       }
